@@ -24,8 +24,8 @@ CONSTANTS
   BlankPool,   \* set of blank lines                         (wf)
   LinePool     \* set of raw lines                           (pool)
 
-VARIABLES doc, gs, an, sigma, gen_items, nblank, obs
-vars == <<doc, gs, an, sigma, gen_items, nblank, obs>>
+VARIABLES doc, gs, an, sigma, gen_items, nblank, obs, partial
+vars == <<doc, gs, an, sigma, gen_items, nblank, obs, partial>>
 
 HeadingOK(n) == n[1] \notin (SpaceToks \cup {"SH"}) /\ n[Len(n)] \notin SpaceToks
 
@@ -44,6 +44,13 @@ ObsOf(a) ==
    walk   |-> IF a.verdict = "accept" THEN RuleWalk(f) ELSE <<>>,
    names  |-> [i \in 1..Len(a.items) |-> a.items[i].n]]
 
+\* Layer M only (no property speaks about it): what has already been WRITTEN when the call fails. The
+\* iterator generator hands root k to the printer when it meets root k+1, so every root but the open one
+\* has been printed; the slice generator prints nothing before it has read everything.
+PartialOf(g) ==
+  IF g.status # "err" \/ Gen # "iter" \/ Len(g.roots) <= 1 THEN <<>>
+  ELSE CodeRows(g.nodes, SubSeq(g.roots, 1, Len(g.roots) - 1), LastBy)
+
 Init ==
   /\ doc = <<>>
   /\ gs = GS0(Gen)
@@ -52,6 +59,7 @@ Init ==
   /\ gen_items = <<>>
   /\ nblank = 0
   /\ obs = ObsOf(A0)
+  /\ partial = <<>>
 
 Feed(l) ==
   /\ gs.status = "run"
@@ -59,6 +67,7 @@ Feed(l) ==
   /\ gs' = GenStep(gs, l, Gen, Dev)
   /\ an' = AStep(an, l)
   /\ obs' = ObsOf(an')
+  /\ partial' = PartialOf(gs')
 
 NextWf ==
   \/ /\ Len(gen_items) < MaxLines
